@@ -179,6 +179,26 @@ type wctx struct {
 	id   uint64
 	slot *slot
 	rcv  *face.NDNLPLinkService // cached receiver (enumeration B)
+	rbuf []byte                  // the receive buffer of this worker's "transport" (see recvReused)
+}
+
+// recvReused hands a frame to the receiver the way every real transport does: the frame is read
+// into the transport's ONE receive buffer, handleIncomingFrame gets a slice of it, and the buffer
+// belongs to the transport again as soon as the call returns - the next frame is read over it.
+// Between two frames the buffer therefore holds something else (here: a filler that is not a
+// well-formed TLV). Whatever the link service keeps from a frame (fragments waiting for
+// reassembly, the packet handed to the forwarding thread) must be its own copy; if it is not,
+// the deliveries judged afterwards differ from what was sent.
+func recvReused(ctx *wctx, l *face.NDNLPLinkService, f []byte) {
+	if cap(ctx.rbuf) < len(f) {
+		ctx.rbuf = make([]byte, 2*maxPacket+len(f))
+	}
+	b := ctx.rbuf[:len(f)]
+	copy(b, f)
+	face.VerifC10Recv(l, b)
+	for i := range b {
+		b[i] = 0xdb
+	}
 }
 
 var (
@@ -477,7 +497,7 @@ func (p *pair) runCase(size int, st *caseStats) {
 	sl := p.ctx.slot
 	sl.got = sl.got[:0]
 	for i, f := range frames {
-		if pn := safely("handleIncomingFrame", func() { face.VerifC10Recv(p.rcv, f) }); pn != "" {
+		if pn := safely("handleIncomingFrame", func() { recvReused(p.ctx, p.rcv, f) }); pn != "" {
 			addVio("C10.exact", pn, c, mtu, size, fmt.Sprintf("%s (frame %d of %d)", pn, i, len(frames)), replay)
 			face.VerifC10ClearStore(p.rcv)
 			return
@@ -824,13 +844,20 @@ func main() {
 	covB["sequence_distance_family"] = covSD
 	covB["orders"] = covB["orders"].(int64) + covSD["arrival_orders_run"].(int64)
 	covB["classes_run"] = covB["classes_run"].(int64) + covSD["message_sets"].(int64)
+	covMC := enumMaxConcurrent(thorough, samples)
+	covB["concurrent_maximum_size_family"] = covMC
+	covB["orders"] = covB["orders"].(int64) + covMC["arrival_orders_run"].(int64)
+	covB["classes_run"] = covB["classes_run"].(int64) + covMC["message_sets_done"].(int64)
+	if covMC["complete"] != true {
+		covB["complete"] = false
+	}
 
 	flushVios(rep)
 	exhaustive := completeA && covB["complete"] == true && !devOverride
 	code := rep.FinishNoExit(report.Coverage{
 		"evaluations":         tot.nCases + covB["orders"].(int64),
 		"distinct_nontrivial": shapes + covB["classes_run"].(int64),
-		"rule":                "A: distinct (MTU, configuration, frame count >= 2) triples whose frames were sent and re-assembled; B: distinct (MTU, message shape, last-fragment class, frame source) classes whose every frame order was run",
+		"rule":                "A: distinct (MTU, configuration, frame count >= 2) triples whose frames were sent and re-assembled; B: distinct (MTU, message shape, last-fragment class, frame source) classes whose every frame order was run, plus the message sets of the sequence-distance and concurrent-maximum-size families",
 		"samples":             samples.List(),
 		"exhaustive":          exhaustive,
 		"enumeration_A":       covA,
@@ -844,6 +871,8 @@ func main() {
 		"Enumeration B also runs harness-built reference frames (Sequence/FragIndex/FragCount on every fragment, token and mark repeated) so that the receiver is exercised in every order even while the sender omits FragIndex/FragCount.",
 		"Block 4 changes the MTU of a live sender (created at m0, has sent packets) with LinkService.SetMTU, the setter management faces/update uses, for all ordered pairs of the 74-value MTU list, and applies the same oracle with the MTU then in force to packet sizes straddling both MTUs.",
 		"Block 3 reaches the sender's options through SetOptions from every other (fragmentation, incoming-face indication) option set; the oracle is the same as for a sender constructed with the final options.",
+		"Receive buffer: every frame reaches handleIncomingFrame (enumerations A and B) in ONE buffer per receiver that is overwritten with a filler as soon as the call returns, as a transport's receive loop does; what was delivered is judged after all frames of the case.",
+		"Concurrent maximum-size family: 2..4 messages of 8800, 8799, ... bytes at MTU 128, 129, 160 (thorough: 15 MTUs up to 300 and a mixed-size profile) with four link-layer header profiles (up to 32-byte token + 8-byte mark + incoming-face indication = the most fragments per message), five systematic interleavings, two further messages afterwards on the same link; not every interleaving of hundreds of frames.",
 		"MTU < 128 (where the header reserve can reach the MTU: division by zero in sendPacket) is outside this property (C17/C04).",
 	})
 	pprof.StopCPUProfile()
